@@ -24,7 +24,7 @@ MANIFEST = dict(
          "with the corollaries alias_unaffected, call_leaves_argument, closure_sees_variable_not_value. The spec is tied to /repo on "
          "every run by random and exhaustive-short histories over aliased lists, dicts (with/without default), strings, vectors, bytes "
          "and struct instances, compared after every statement; the machine is tied to /repo by C02's Rc-graph comparison.",
-    note="Theorems cover the fragment `frag` (slot assignment, `every` assignment through slices, op-assign with append/++/+/|./-./||/|.., "
+    note="Theorems cover the fragment `frag` (slot assignment, `every` assignment through slices, op-assign with append/++/+/|./-./||/|.. also with a default `(x[p][k] = d) f= e`, "
          "pop/remove/consume, swap, for-loops, update expressions, mutating calls, getter closures), i.e. every form of the statement "
          "language except non-`every` slice assignment (todo!() in the interpreter, F11). Trusted: Coq kernel; hand-written machine "
          "Rc/Cow.v and spec Rc/ValueSem.v (tie to the code is differential testing on generated histories + C02's graph isomorphism); "
@@ -118,6 +118,8 @@ def sx_stmt(s):
         return f"(swap {s[1]} {sx_path(s[2])} {s[3]} {sx_path(s[4])})"
     if t == "opmod":
         return f"(opmod {s[1]} {sx_path(s[2])} {s[3]} {1 if s[4] else 0} {s[5]} {sx_lop(s[6])})"
+    if t == "opdef":
+        return f"(opdef {s[1]} {sx_path(s[2])} {sx_val(s[3])} {s[4]} {sx_expr(s[5])})"
     if t == "for":
         return f"(for {s[1]} {sx_path(s[2])} " + " ".join(sx_stmt(x) for x in s[3]) + ")"
     raise ValueError(s)
@@ -241,6 +243,8 @@ def r_stmt(s):
     if t == "opmod":
         rhs = r_lop(s[6], nm(s[5]))
         return f"{nm(s[1])}{r_path(s[2])} {BOPS[s[3]]}= " + (f"[{rhs}]" if s[4] else f"({rhs})")
+    if t == "opdef":
+        return f"({nm(s[1])}{r_path(s[2])} = {r_val(s[3])}) {BOPS[s[4]]}= {r_expr(s[5])}"
     if t == "for":
         return f"for (it <- {nm(s[1])}{r_path(s[2])}) (" + "; ".join(r_stmt(x) for x in s[3]) + ")"
     raise ValueError(s)
@@ -735,6 +739,12 @@ class Gen:
                 wrap = r.random() < 0.6
                 f = "concat" if wrap else r.choice(["append", "append", "concat"])
                 return ("opmod", x, p, f, wrap, y, m)
+        if k < 0.50:
+            # op-assign with a default: (x[p][k] = d) f= e  - the slot is a key of a dictionary (without default) reached through
+            # one or more indices; when the key is missing the operator starts from d
+            got = self.opdef(st, x)
+            if got is not None:
+                return got
         if k < 0.58:
             p, node = self.pick(v, lambda n: n[0] in ("L", "V", "B", "D", "I")) or ([], v)
             f = self.bop_for(node)
@@ -776,6 +786,32 @@ class Gen:
         q, _ = self.anynode(st[y])
         return ("swap", x, p, y, q)
 
+    def opdef(self, st, x):
+        r = self.r
+        v = st[x]
+        cands = [(q, n) for q, n in self.nodes(v) if n[0] == "D"]
+        deep = [(q, n) for q, n in cands if len(q) >= 1 and n[1] is None]
+        nodef = [(q, n) for q, n in cands if n[1] is None]
+        pool = deep if deep and r.random() < 0.8 else (nodef if nodef and r.random() < 0.85 else cands)
+        if not pool:
+            return None
+        q, node = r.choice(pool)
+        ch = self.children(node)
+        if ch and r.random() < 0.5:
+            key, child = r.choice(ch)
+            if child[0] in ("L", "V", "B", "D", "I"):
+                f = self.bop_for(child)
+                d = self.lit(1)
+                return ("opdef", x, list(q) + [key], d, f, ("lit", self.arg_for(child, f)))
+        key = self.key()
+        d, f = r.choice([(("L", []), "append"), (("L", [("I", 1)]), "concat"), (("I", 0), "plus"), (("I", 100), "plus"),
+                         (("D", None, []), "addkey"), (("V", [1, 2]), "append"), (("L", []), "append")])
+        if r.random() < 0.5 or f == "addkey":       # (keys: integers and strings only, see arg_for)
+            e = ("lit", self.arg_for(d, f))
+        else:
+            e = self.expr(st, 1)
+        return ("opdef", x, list(q) + [key], d, f, e)
+
     def malformed(self, st, x):
         r = self.r
         v = st[x]
@@ -799,6 +835,10 @@ class Gen:
             return ("assign", x, p + [self.bad_pe()] + ([self.bad_pe()] if r.random() < 0.3 else []), self.expr(st))
         if k < 0.45:
             f = r.choice(["append", "concat", "plus", "addkey", "delkey", "union", "update"])
+            if r.random() < 0.3:
+                # with-default read on something that is not a key of a default-less dictionary
+                pe = r.choice([self.key(), self.key(), ("i", 0), self.bad_pe()])
+                return ("opdef", x, p + [pe], self.lit(1), f, ("lit", self.arg_for(node, f)))
             return ("op", x, p, f, ("lit", self.arg_for(node, f)))
         if k < 0.7:
             m = r.choice([("lpop", p), ("lpop", p + [self.bad_pe()]), ("lremove", p, self.bad_pe()), ("lconsume", p + [self.bad_pe()])])
@@ -944,7 +984,7 @@ def is_mutation(s):
         return True
     if s[0] in ("assign", "every"):
         return len(s[2]) > 0
-    return s[0] in ("op", "mod", "swap", "opmod")
+    return s[0] in ("op", "mod", "swap", "opmod", "opdef")
 
 
 def containers(v, acc):
@@ -1016,7 +1056,7 @@ def tuplify_inner(y):
 
 
 TAGS = {"N", "I", "L", "S", "V", "B", "D", "X", "i", "s", "f", "sl", "lit", "read", "get", "list", "upd", "call", "lset", "levery", "lop",
-        "lpop", "lremove", "lconsume", "assign", "every", "op", "mod", "swap", "for", "opmod"}
+        "lpop", "lremove", "lconsume", "assign", "every", "op", "mod", "swap", "for", "opmod", "opdef"}
 
 ALPHABET = [
     ("assign", 1, [], ("lit", ("L", [("L", [("I", 1), ("I", 2)]), ("I", 3)]))),
@@ -1041,6 +1081,63 @@ def exhaustive_histories(maxlen):
         for combo in itertools.product(range(len(ALPHABET)), repeat=n):
             out.append((3, [ALPHABET[i] for i in combo], ["plain"] * n))
     return out
+
+
+# ----------------------------------------------------------------------------- swap of ==-equal, distinguishable values
+# Noulith's == is coarser than identity of values (1 == 1.0 == 2/2, [1] == [1.0], 0.0 == -0.0, dictionaries are compared
+# without their default).  The value semantics says swap exchanges the two slots whatever they hold.  The modelled values
+# have integers only, so this family is checked against the statement of the property directly: after
+# `swap s, t` the first slot holds what the literal B evaluates to, the second what A evaluates to (canonical serialiser,
+# which tells all of these apart), and an alias taken before still shows A, B.
+EQ_PAIRS = [
+    ("1", "1.0"), ("1.0", "1"), ("2", "4/2"), ("0.0", "-0.0"), ("0", "-0.0"), ("[1]", "[1.0]"), ("[1, [2]]", "[1, [2.0]]"),
+    ("V(1, 2)", "V(1.0, 2.0)"), ("[V(1, 2)]", "[V(1.0, 2)]"), ("{:0}", "{:1}"), ("{1: 2}", "{:5, 1: 2}"), ("{1: 2}", "{1: 2.0}"),
+    ("[{:0}]", "[{:[]}]"), ("S0(1, 2)", "S0(1.0, 2)"), ("{1: [1]}", "{1.0: [1]}"), ("3", "3"), ("[1]", "[1]"), ("1", "2"),
+]
+
+
+def swap_equal_cases():
+    pre = ["struct S0 (f0_0, f0_1)"]
+    cases = []
+    for a, b in EQ_PAIRS:
+        cases.append(("variables", pre + [f"a := {a}", f"b := {b}", "swap a, b"], "[a, b]", f"[{b}, {a}]"))
+        cases.append(("list slots, aliased", pre + [f"x := [{a}, {b}, 0]", "keep := x", "swap x[0], x[1]"], "[x, keep]",
+                      f"[[{b}, {a}, 0], [{a}, {b}, 0]]"))
+        cases.append(("last/first slot", pre + [f"x := [{a}, 0, {b}]", "keep := x", "swap x[-1], x[0]"], "[x, keep]",
+                      f"[[{b}, 0, {a}], [{a}, 0, {b}]]"))
+        cases.append(("nested list slot and dict key, aliased", pre + [f"p := [[{a}], 7]", f"q := {{\"k\": {b}}}", "keep := p", "keep2 := q",
+                      "swap p[0][0], q[\"k\"]"], "[p, q, keep, keep2]",
+                      f"[[[{b}], 7], {{\"k\": {a}}}, [[{a}], 7], {{\"k\": {b}}}]"))
+        cases.append(("struct fields", pre + [f"s := S0({a}, {b})", "keep := s", "swap s[f0_0], s[f0_1]"], "[s, keep]",
+                      f"[S0({b}, {a}), S0({a}, {b})]"))
+        cases.append(("variable and slot", pre + [f"a := {a}", f"x := [0, [{b}]]", "keep := x", "swap a, x[1][0]"], "[a, x, keep]",
+                      f"[{b}, [0, [{a}]], [0, [{b}]]]"))
+        cases.append(("slot with itself", pre + [f"x := [{a}, {b}]", "keep := x", "swap x[0], x[0]"], "[x, keep]",
+                      f"[[{a}, {b}], [{a}, {b}]]"))
+    return cases
+
+
+def swap_equal_check(ctx, stats):
+    cases = swap_equal_cases()
+    progs = [st + [obs] for (_, st, obs, _) in cases] + [pre_exp for pre_exp in [["struct S0 (f0_0, f0_1)", exp] for (_, _, _, exp) in cases]]
+    res = common.run_prog(progs, timeout=20.0)
+    n = len(cases)
+    for i, (what, st, obs, exp) in enumerate(cases):
+        got, want = res[i], res[n + i]
+        stats["swap_equal_cases"] = stats.get("swap_equal_cases", 0) + 1
+        g = [(r.get("status"), r.get("val")) for r in got.get("results", [])] if "results" in got else [(got.get("status"), None)]
+        w = want.get("results", [{}])[-1] if "results" in want else {}
+        if w.get("status") != "ok":
+            ctx.violation("correspondence", {"what": "swap family: the expected-value expression did not evaluate", "expr": exp, "result": want}, found=False)
+            continue
+        ok = len(g) == len(st) + 1 and all(s == "ok" for s, _ in g) and g[-1][1] == w.get("val")
+        if not ok:
+            stats["diffs"] += 1
+            ctx.violation("property", {
+                "what": f"swap of two values that compare equal with == but are distinguishable ({what}): the slots were not exchanged "
+                        "(or an alias changed)",
+                "program": st + [obs], "observed": g[-1], "expected_value_of": exp, "expected": w.get("val")}, found=True)
+    return n
 
 
 # ----------------------------------------------------------------------------- run
@@ -1119,6 +1216,7 @@ def run(ctx):
         spec = Spec(runner)
         try:
             compare_batch(ctx, spec, corpus_histories(), stats, "corpus", machine)
+            swap_equal_check(ctx, stats)
             nh = ctx.n(400, 12000)
             bsz = ctx.n(400, 2000)
             batch = []
@@ -1150,6 +1248,7 @@ def run(ctx):
         "samples": samples, "histories": stats["histories"], "raised_statements": stats["raised"],
         "statement_forms": stats["forms"], "aliased_mutation_statements": stats["aliased_mutations"],
         "exhaustive_histories": stats.get("exhaustive_histories", 0), "differences": stats["diffs"],
+        "swap_of_equal_distinguishable_values_cases": stats.get("swap_equal_cases", 0),
     })
     ctx.assumptions += ["dict keys are integers and ASCII strings; strings are ASCII (C09/C16 cover keys and UTF-8)",
                         "for-loops iterate lists/vectors/bytes/strings only (dict iteration order is the hash map's)",
